@@ -1,6 +1,8 @@
 import DmrVerif.Driver.Loop
 import DmrVerif.Driver.Tms
+import DmrVerif.Driver.TranslArs
+import DmrVerif.Driver.TranslTms
 
 /-! model driver for property C16 (Motorola TMS / ARS) -/
 
-def main : IO Unit := Dmr.Driver.runMain [Dmr.Driver.tmsOp, Dmr.Driver.arsOp]
+def main : IO Unit := Dmr.Driver.runMain [Dmr.Driver.tmsOp, Dmr.Driver.arsOp, Dmr.Driver.translArsOp, Dmr.Driver.translTmsOp]
